@@ -291,6 +291,19 @@ template <class S> void embedded(vf::Ctx& c) {
 
 VF_PROPERTY(embedded_utf8, 2, "valid text segments (all planes, U+0000, U+FFFF, U+10FFFF) with ill-formed UTF-8 chunks (stray continuation, overlong, surrogate, >U+10FFFF, 5/6-byte leads, truncated tails) between and after them; targets UTF-16/32; Skip with sentinel/default/empty mark and ThrowError; non-trivial = input ill-formed per ref_utf") { embedded<char>(c); }
 VF_PROPERTY(embedded_utf16, 1, "same with ill-formed UTF-16 chunks (lone/swapped/doubled surrogates, high surrogate + non-surrogate); targets UTF-8/32; LE and BE decoders") { embedded<char16_t>(c); }
+// wchar_t is a signed 32-bit type on this platform: the same units through std::wstring must give exactly what they give through std::u32string
+VF_PROPERTY(wchar_source_equals_char32_source, 1, "UTF-32 unit sequences with surrogates, values above U+10FFFF and units with the top bit set (negative as wchar_t), embedded in valid text, transcoded from std::wstring and from std::u32string to UTF-8 and UTF-16 with both policies: identical output, error code, position and error count; non-trivial = a unit >= 0x80000000 is present")
+{
+	static_assert(sizeof(wchar_t) == 4, "32-bit wchar_t expected");
+	std::u32string in; bool high = false; const size_t n = 1 + c.src.draw(8);
+	for (size_t i = 0; i < n; i++) { switch (c.src.draw(6)) { case 0: in.push_back(static_cast<char32_t>(0xD800 + c.src.draw(0x800))); break; case 1: in.push_back(static_cast<char32_t>(0x110000 + c.src.draw(0x1000))); break; case 2: in.push_back(static_cast<char32_t>(c.src.draw(0x10000) | 0x80000000u)); high = true; break; case 3: in.push_back(static_cast<char32_t>(0xFFFF0000u | c.src.draw(0x10000))); high = true; break; default: in.push_back(static_cast<char32_t>(0x41 + c.src.draw(0x500))); } }
+	const std::wstring win(in.begin(), in.end()); const auto pol = c.src.coin() ? UtfEncodingErrorPolicy::Skip : UtfEncodingErrorPolicy::ThrowError;
+	c.nontrivial = high; c.describe(vf::cat("wchar ", refutf::show(in), " pol=", static_cast<int>(pol)));
+	{ std::u16string a, b; std::u32string_view sv(in); std::wstring_view wv(win); auto ra = Transcode(sv, a, pol); auto rb = Transcode(wv, b, pol);
+	  if (a != b || ra.ErrorCode != rb.ErrorCode || ra.InvalidSequencesCount != rb.InvalidSequencesCount || (ra.Iterator - sv.cbegin()) != (rb.Iterator - wv.cbegin())) c.fail("wchar_t source is transcoded differently from the same units as char32_t (to UTF-16)", vf::cat(refutf::show(in), " pol=", static_cast<int>(pol), " u32: ", vf::hex(std::string(reinterpret_cast<const char*>(a.data()), a.size() * 2)), " errors=", ra.InvalidSequencesCount, " wchar: ", vf::hex(std::string(reinterpret_cast<const char*>(b.data()), b.size() * 2)), " errors=", rb.InvalidSequencesCount)); }
+	{ std::string a, b; std::u32string_view sv(in); std::wstring_view wv(win); auto ra = Transcode(sv, a, pol); auto rb = Transcode(wv, b, pol);
+	  if (a != b || ra.ErrorCode != rb.ErrorCode || ra.InvalidSequencesCount != rb.InvalidSequencesCount || (ra.Iterator - sv.cbegin()) != (rb.Iterator - wv.cbegin())) c.fail("wchar_t source is transcoded differently from the same units as char32_t (to UTF-8)", vf::cat(refutf::show(in), " pol=", static_cast<int>(pol), " u32: ", vf::hex(a), " wchar: ", vf::hex(b))); }
+}
 VF_PROPERTY(embedded_utf32, 1, "same with invalid UTF-32 units (surrogates, > U+10FFFF); targets UTF-8/16") { embedded<char32_t>(c); }
 
 int main(int argc, char** argv) {
